@@ -350,7 +350,7 @@ class RuntimeContext:
         if self.context:
             self.routes = list(self.context.routes)
 
-        if route:
+        if route is not None:
             self.routes.append(route)
         else:
             self.depth += 1
